@@ -5,6 +5,7 @@ import (
 	"fmt"
 	"net"
 	"strconv"
+	"strings"
 	"sync"
 	"time"
 
@@ -99,7 +100,7 @@ func runC20(c *core.Ctx, r *core.Result) {
 	if c.Thorough() {
 		p = plan{fullDepth: 3, coreDepth: 4, strDepth: 2, pairDepth: 1, alphabet: tm.REG}
 	}
-	r.Bounds = p.String() + "; one RPC per term through grpc.Server+UnaryServerInterceptor and a client with UnaryClientInterceptor over memlistener"
+	r.Bounds = p.String() + "; one RPC per term through grpc.Server+UnaryServerInterceptor and a client with UnaryClientInterceptor over memlistener; plus a message-size sweep (every ASCII padding length up to the bound followed by 2/3/4-byte runes)"
 	r.Rule = "state = (term, RPC); non-trivial = the handler's error is not already a gRPC status error (so it is encoded into the status details and decoded by the client interceptor)"
 	r.Assumptions = []string{"gRPC's own goroutines are not under a controlled scheduler: the property is functional and the enumerated dimension is the input", "REG strings (valid UTF-8): proto3 string fields are specified as such"}
 	rig, err := newRig()
@@ -112,7 +113,7 @@ func runC20(c *core.Ctx, r *core.Result) {
 	if got, code, _ := rig.call(nil); got != nil || code != codes.OK {
 		r.Violate("nil-handler-error", fmt.Sprintf("a nil handler error arrives as %v (code %v)", got, code), nil)
 	}
-	eachTerm(c, r, p, func(t *tm.Term) {
+	visit := func(t *tm.Term) {
 		encoded := false
 		report(r, t, nil, func(t *tm.Term) string {
 			return guarded("C20", func() string {
@@ -131,7 +132,18 @@ func runC20(c *core.Ctx, r *core.Result) {
 					return ""
 				}
 				encoded = true
-				wantCode := extgrpc.GetGrpcCode(e)
+				// the code attached with WrapWithGrpcCode, from the term's model:
+				// the outermost code layer on the visible single-cause chain
+				wantCode := codes.Unknown
+				for _, n := range t.Model().Spine() {
+					if n.GRPC >= 0 {
+						wantCode = codes.Code(n.GRPC)
+						break
+					}
+				}
+				if got := extgrpc.GetGrpcCode(e); got != wantCode {
+					return fail("getgrpccode", "GetGrpcCode of the handler's error is %v, the code attached on its cause chain is %v", got, wantCode)
+				}
 				if rawCode != wantCode {
 					return fail("status-code", "the gRPC status code on the wire is %v, the error carries %v (raw error: %v)", rawCode, wantCode, rawErr)
 				}
@@ -166,5 +178,32 @@ func runC20(c *core.Ctx, r *core.Result) {
 		if r.Evaluations%999 == 1 {
 			r.Sample(map[string]interface{}{"term": t.String()})
 		}
-	})
+	}
+	eachTerm(c, r, p, visit)
+	// message-size sweep: every length 0..maxPad of ASCII padding followed
+	// by 2-, 3- and 4-byte runes, so that every byte offset up to the bound
+	// falls once inside a multi-byte rune (status messages, trailers and
+	// detail payloads all have size-dependent paths)
+	if c.Replay == nil {
+		maxPad := 300
+		if c.Thorough() {
+			maxPad = 5000
+		}
+		for pad := 0; pad <= maxPad; pad++ {
+			if !c.Mine(int64(1<<30 + pad)) {
+				continue
+			}
+			msg := strings.Repeat("a", pad) + "é€𝄞z"
+			for _, names := range [][]string{{"New"}, {"GoNew", "Wrap"}, {"New", "WrapWithGrpcCode"}} {
+				t := tm.T(names...)
+				t.EachSlot(func(k int, o *tm.Term, i int) {
+					if o.Op.Slots[i].Name == "msg" && o.Kid == nil {
+						o.S[i] = msg
+					}
+				})
+				visit(t)
+			}
+		}
+		r.Count("size_sweep_max_pad", int64(maxPad))
+	}
 }
